@@ -40,6 +40,7 @@ type c05World struct {
 	tcp   []*TCPPeerListener
 	rr    *RoundRobinBackend
 	seq   int
+	crash string // panic in a membership call made by the driver
 }
 
 func c05Start(proto string, naddr int) *c05World {
@@ -85,12 +86,16 @@ func (w *c05World) add(i int) {
 	if err != nil {
 		panic(err)
 	}
-	w.rr.AddBackend(b)
+	if cr := guard(func() { w.rr.AddBackend(b) }); cr != "" {
+		w.crash = cr
+	}
 	w.s.Run()
 }
 
 func (w *c05World) remove(i int) {
-	w.rr.RemoveBackend(c05Addr(i))
+	if cr := guard(func() { w.rr.RemoveBackend(c05Addr(i)) }); cr != "" {
+		w.crash = cr
+	}
 	w.s.Run()
 }
 
@@ -154,6 +159,9 @@ func c05Exec(proto string, naddr int, hist []c05Op, probe bool) (string, string,
 			if cl, d := step(desc, w.dispatch()); cl != "" {
 				return "", cl, d
 			}
+		}
+		if w.crash != "" {
+			return "", "crash-in-membership-change", desc + ": " + w.crash
 		}
 		if v := w.s.Verdict(); v != "" {
 			return "", "health", desc + ": " + v
